@@ -33,6 +33,15 @@ def run_case(ctx, res, spec, lines, post):
     np.random.seed(spec['seed'] % 2 ** 31 + 5)
     xtest = system.sample_inputs(12)
     snaps = []
+    if spec.get('cleared', rng.random() < 0.3):
+        # life-cycle: an earlier training run on the same object, then clear(): the replay is about the NEW history only
+        for _ in range(rng.randint(2, 4)):
+            r0 = system.refine(num_refine=30, update_bounds=False, targets=spec.get('targets'))
+            if r0['component'] is None:
+                break
+            system.train_history.append(r0)
+        system.clear()
+        res.hit('earlier-history-cleared')
     via_fit = rng.random() < 0.4      # the history is recorded by fit() itself, one step per call, some calls out of time budget
     for step in range(nsteps):
         if via_fit:
@@ -142,6 +151,7 @@ def run_case(ctx, res, spec, lines, post):
 
 def zeroed(spec, k):
     spec['narrow'] = (k % 2 == 0)
+    spec['cleared'] = (k % 3 == 2)
     """every third system: the last surrogate component's model vanishes on its coarse grids and training targets only its
     output, so that ordinary (non-initial) refinement steps are recorded with an undefined (NaN) error indicator"""
     if k % 3 != 1:
